@@ -667,15 +667,19 @@ func cmdCheck(args []string) int {
 		}
 		fatal2("%d harness errors", len(total.HarnessErrs))
 	}
-	if len(total.DetMismatch) > 0 {
-		fatal2("determinism self-check failed for run indices %v", total.DetMismatch)
-	}
+	// A determinism mismatch (a run repeated in the same process gave another
+	// trace) usually means harness trouble, but it is also what hidden global
+	// state in the library looks like (a package-level cache or map that survives
+	// from one run to the next). It is fatal (exit 2) unless a violation is found
+	// that reproduces twice in fresh processes from its replay file.
+	detMismatch := len(total.DetMismatch) > 0
 	if total.Runs == 0 {
 		fatal2("no runs executed")
 	}
 	// the real-kernel leg of C19 runs before anything is reported: trouble there is exit 2
 	var kernelExtra map[string]interface{}
 	var kviol []kViolation
+	var kernelUnreproduced []string
 	if id == "C19" {
 		kb := tc.budgetSec / 3
 		if kb < 15 {
@@ -804,8 +808,11 @@ func cmdCheck(args []string) int {
 				}
 			}
 			if okN < 2 {
+				// the kernel leg is not simulated: a history whose outcome depends on a
+				// real race need not recur; such a class is not reported
 				os.Remove(path)
-				fatal2("kernel-leg violation %s/%s (seed %d) did not recur when its history was re-executed (%d/2): nothing reported", kv.Clause, kv.Key, kv.History.Seed, okN)
+				kernelUnreproduced = append(kernelUnreproduced, fmt.Sprintf("%s/%s (seed %d, %d/2)", kv.Clause, kv.Key, kv.History.Seed, okN))
+				continue
 			}
 			v := Violation{"kernel:" + kv.Clause, kv.Key, kv.Detail}
 			if kf := matchKnown(known, id, v); kf != nil {
@@ -818,6 +825,15 @@ func cmdCheck(args []string) int {
 			reported = append(reported, map[string]interface{}{"known": false, "clause": v.Clause, "key": v.Key, "replay": path, "detail": abbreviate(v.Detail, 400)})
 			exit = 1
 		}
+	}
+	if detMismatch && exit == 0 {
+		fatal2("determinism self-check failed for run indices %v", total.DetMismatch)
+	}
+	if detMismatch {
+		fmt.Printf("note: %d repeated runs gave a different trace in the same process (state surviving between runs?); the violations above reproduced in fresh processes\n", len(total.DetMismatch))
+	}
+	if exit == 0 && len(kernelUnreproduced) > 0 {
+		fatal2("kernel-leg violations did not recur when their histories were re-executed and nothing else was found: %v", kernelUnreproduced)
 	}
 	for c, msg := range unreproduced {
 		if !seen[c] {
